@@ -161,6 +161,7 @@ template <typename T> inline HistCfg<T> make_hist_cfg(Rng& rng)
     }
     c.weights.resize(c.channels);
     for (auto& w : c.weights) w = T(rng.range(1, 9)) * T(0.3);
+    if (rng.below(2)) c.weights[rng.below(c.channels)] *= T(0.02);      // a weight far below the minimum weight (gets clamped)
     c.weights[rng.below(c.channels)] = T();
     bool any = false;
     for (T w : c.weights) any = any || w != T();
